@@ -225,6 +225,10 @@ cocls::async<void> consumer(const Prog *p, Gates *gates, Result *res) {
         catch (const val::PlainExc &e) { code = 1000 + e.id; }
         catch (const cocls::no_more_values_exception &) { code = -7; }
         if (code == -50) break;
+        // done() / operator bool agree with what the access just reported: a delivered value means the body is parked at a yield,
+        // a plain end indication means it has returned (after an exception the state is not specified: not looked at)
+        if (code >= 0 && code < 1000) HZ_CHECK(!g.done() && (bool)g, "done() is %d / operator bool is %d right after value %d was delivered (the body has not ended)", (int)g.done(), (int)(bool)g, code);
+        if (code == -1) HZ_CHECK(g.done() && !(bool)g, "done() is %d / operator bool is %d after the end-of-sequence indication", (int)g.done(), (int)(bool)g);
         if (code >= 0 && code < 1000) res->got.push_back(code);
         else { res->end = code; ended = true; }
     }
@@ -279,6 +283,8 @@ void consumer_plain(const Prog *p, Gates *gates, Result *res) {
         catch (const val::TestExc &e) { code = 1000 + e.id; }
         catch (const val::PlainExc &e) { code = 1000 + e.id; }
         catch (const cocls::no_more_values_exception &) { code = -7; }
+        if (code >= 0 && code < 1000) HZ_CHECK(!g.done() && (bool)g, "done() is %d / operator bool is %d right after value %d was delivered (the body has not ended)", (int)g.done(), (int)(bool)g, code);
+        if (code == -1) HZ_CHECK(g.done() && !(bool)g, "done() is %d / operator bool is %d after the end-of-sequence indication", (int)g.done(), (int)(bool)g);
         if (code >= 0 && code < 1000) res->got.push_back(code);
         else { res->end = code; ended = true; }
     }
